@@ -12,6 +12,8 @@ from .model import Program, AnalysisError, FunctionInfo
 from .dag import Expander
 
 VERIF = os.path.dirname(os.path.dirname(os.path.abspath(__file__)))
+# scratch runs against a variant tree (tools/) set VERIF_EVIDENCE_DIR so that the committed evidence is not overwritten
+EVDIR = os.environ.get("VERIF_EVIDENCE_DIR") or os.path.join(VERIF, "evidence")
 PASS, VIOLATION, UNKNOWN, INFO = "PASS", "VIOLATION", "UNKNOWN", "INFO"
 
 
@@ -144,7 +146,7 @@ def finish(ctx: Ctx, t0: float, seed: int, explanation: str, rule_text: str, sel
         print(f"  note: {n}")
     for o in known_hits:
         print(f"KNOWN-FINDING: property={prop} {o.rule} {o.site} {o.function}: {o.instance} -- {o.detail}")
-    vdir = os.path.join(VERIF, "evidence", "violations")
+    vdir = os.path.join(EVDIR, "violations")
     for o in new_viols:
         os.makedirs(vdir, exist_ok=True)
         slug = re.sub(r"[^A-Za-z0-9_.-]+", "-", f"{prop}-{o.rule}-{o.function}-{o.instance}")[:150]
@@ -205,8 +207,8 @@ def finish(ctx: Ctx, t0: float, seed: int, explanation: str, rule_text: str, sel
         "wall_s": round(wall, 3),
         "violations": len(new_viols),
     }
-    os.makedirs(os.path.join(VERIF, "evidence"), exist_ok=True)
-    with open(os.path.join(VERIF, "evidence", f"{prop}.json"), "w") as f:
+    os.makedirs(EVDIR, exist_ok=True)
+    with open(os.path.join(EVDIR, f"{prop}.json"), "w") as f:
         json.dump(ev, f, indent=1, default=str)
     print(f"[{prop}] obligations={obligations} pass={discharged} unknown={unknown} "
           f"violations={len(new_viols)} known={len(known_hits)} wall={wall:.2f}s")
